@@ -497,7 +497,7 @@ class PPSPerm(Component):
     rule = "non-empty filter_tables result on tables with >=2 rows on some side"
 
     def examples(self, tier):
-        return 150 if tier == "quick" else 1200
+        return 300 if tier == "quick" else 1500
 
     def strategy(self, tier):
         return pps_case(tier)
